@@ -285,43 +285,52 @@ macro_rules! proofs {
     )*};
 }
 
-// ---- i64 ------------------------------------------------------------------
-// @harness c18_vec_i64_rank_1x1_e3 tier=quick unwind=6 block=128 mem=4 timeout=600
-// @harness c18_vec_i64_rank_1x2_e3 tier=quick unwind=6 block=128 mem=6 timeout=900
-// @harness c18_vec_i64_rank_2x1_e3 tier=quick unwind=6 block=128 mem=6 timeout=900
-// @harness c18_vec_i64_rank_2x2_e2 tier=quick unwind=6 block=128 mem=12 timeout=1200
-// @harness c18_vec_i64_rank_2x2_e2_reach tier=quick unwind=6 block=128 mem=12 timeout=1200 twin
-// @harness c18_vec_i64_rank_1x3_e3 tier=thorough unwind=6 block=128 mem=8 timeout=1800
-// @harness c18_vec_i64_rank_3x1_e3 tier=thorough unwind=6 block=128 mem=12 timeout=1800
-// @harness c18_vec_i64_rank_2x3_e2 tier=thorough unwind=6 block=128 mem=24 timeout=3600 stretch
-// @harness c18_vec_i64_rank_3x2_e2 tier=thorough unwind=6 block=128 mem=24 timeout=3600 stretch
-// @harness c18_vec_i64_null_1x2_e3 tier=quick unwind=6 block=128 mem=8 timeout=900
-// @harness c18_vec_i64_null_2x1_e3 tier=quick unwind=6 block=128 mem=8 timeout=900
-// @harness c18_vec_i64_null_2x2_e2 tier=quick unwind=6 block=128 mem=14 timeout=1200
-// @harness c18_vec_i64_null_2x2_e2_reach tier=quick unwind=6 block=128 mem=14 timeout=1200 twin
-// @harness c18_vec_i64_null_2x3_e2 tier=thorough unwind=6 block=128 mem=28 timeout=3600 stretch
-// @harness c18_vec_i64_null_3x2_e2 tier=thorough unwind=6 block=128 mem=28 timeout=3600 stretch
-// @harness c18_vec_i64_solve_1x2_e3 tier=quick unwind=6 block=128 mem=8 timeout=900
-// @harness c18_vec_i64_solve_2x1_e3 tier=quick unwind=6 block=128 mem=8 timeout=900
-// @harness c18_vec_i64_solve_2x2_e2 tier=quick unwind=6 block=128 mem=16 timeout=1200
-// @harness c18_vec_i64_solve_2x2_e2_reach tier=quick unwind=6 block=128 mem=16 timeout=1200 twin
-// @harness c18_vec_i64_detinv_1_e3 tier=quick unwind=6 block=128 mem=4 timeout=600
-// @harness c18_vec_i64_detinv_2_e2 tier=quick unwind=6 block=128 mem=16 timeout=1200
-// @harness c18_vec_i64_detinv_2_e2_reach tier=quick unwind=6 block=128 mem=16 timeout=1200 twin
-// @harness c18_vec_i64_det_3_e3 tier=thorough unwind=6 block=128 mem=12 timeout=1800
-// ---- Z/7 ------------------------------------------------------------------
-// @harness c18_vec_z7_rank_1x2 tier=quick unwind=8 block=128 mem=8 timeout=900
-// @harness c18_vec_z7_rank_2x1 tier=quick unwind=8 block=128 mem=8 timeout=900
-// @harness c18_vec_z7_rank_2x2 tier=quick unwind=8 block=128 mem=16 timeout=1200
-// @harness c18_vec_z7_rank_2x2_reach tier=quick unwind=8 block=128 mem=16 timeout=1200 twin
-// @harness c18_vec_z7_null_1x2 tier=quick unwind=8 block=128 mem=10 timeout=900
-// @harness c18_vec_z7_null_2x2 tier=thorough unwind=8 block=128 mem=24 timeout=3600
-// @harness c18_vec_z7_solve_1x2 tier=quick unwind=8 block=128 mem=10 timeout=900
-// @harness c18_vec_z7_solve_2x1 tier=quick unwind=8 block=128 mem=10 timeout=900
-// @harness c18_vec_z7_solve_2x2 tier=thorough unwind=8 block=128 mem=24 timeout=3600
-// @harness c18_vec_z7_solve_2x2_reach tier=thorough unwind=8 block=128 mem=24 timeout=3600 twin
-// @harness c18_vec_z7_detinv_2 tier=thorough unwind=8 block=128 mem=24 timeout=3600
+// ---- i64 / Z7 registry (generated from measurements, see DESIGN.md section 3.4) ----
+// @harness c18_vec_i64_rank_1x1_e3 tier=quick unwind=6 block=128 mem=2 timeout=900
+// @harness c18_vec_i64_rank_1x2_e3 tier=quick unwind=6 block=128 mem=14 timeout=900
+// @harness c18_vec_i64_rank_2x1_e3 tier=quick unwind=6 block=128 mem=3 timeout=900
+// @harness c18_vec_i64_rank_2x2_e2 tier=thorough unwind=6 block=128 mem=18 timeout=2996
+// @harness c18_vec_i64_rank_2x2_e2_reach tier=thorough unwind=6 block=128 mem=18 timeout=3600 twin
+// @harness c18_vec_i64_rank_1x3_e3 tier=thorough unwind=6 block=128 mem=40 timeout=3600
+// @harness c18_vec_i64_rank_3x1_e3 tier=thorough unwind=6 block=128 mem=40 timeout=3600
+// @harness c18_vec_i64_rank_2x3_e2 tier=thorough unwind=6 block=128 mem=40 timeout=3600 stretch
+// @harness c18_vec_i64_rank_3x2_e2 tier=thorough unwind=6 block=128 mem=40 timeout=3600 stretch
+// @harness c18_vec_i64_null_1x2_e3 tier=quick unwind=6 block=128 mem=9 timeout=1710
+// @harness c18_vec_i64_null_2x1_e3 tier=thorough unwind=6 block=128 mem=29 timeout=2268
+// @harness c18_vec_i64_null_2x2_e2 tier=thorough unwind=6 block=128 mem=40 timeout=3600
+// @harness c18_vec_i64_null_2x2_e2_reach tier=thorough unwind=6 block=128 mem=40 timeout=3600 twin
+// @harness c18_vec_i64_null_2x3_e2 tier=thorough unwind=6 block=128 mem=40 timeout=3600 stretch
+// @harness c18_vec_i64_null_3x2_e2 tier=thorough unwind=6 block=128 mem=40 timeout=3600 stretch
+// @harness c18_vec_i64_solve_1x2_e3 tier=thorough unwind=6 block=128 mem=23 timeout=2263
+// @harness c18_vec_i64_solve_2x1_e3 tier=quick unwind=6 block=128 mem=14 timeout=2150
+// @harness c18_vec_i64_solve_2x2_e2 tier=thorough unwind=6 block=128 mem=28 timeout=3600
+// @harness c18_vec_i64_solve_2x2_e2_reach tier=thorough unwind=6 block=128 mem=40 timeout=3600 twin
+// @harness c18_vec_i64_detinv_1_e3 tier=quick unwind=6 block=128 mem=12 timeout=943
+// @harness c18_vec_i64_detinv_2_e2 tier=thorough unwind=6 block=128 mem=40 timeout=3600
+// @harness c18_vec_i64_detinv_2_e2_reach tier=thorough unwind=6 block=128 mem=40 timeout=3600 twin
+// @harness c18_vec_i64_det_3_e3 tier=thorough unwind=6 block=128 mem=40 timeout=3600
+// @harness c18_vec_z7_rank_1x2 tier=quick unwind=8 block=128 mem=12 timeout=900
+// @harness c18_vec_z7_rank_2x1 tier=quick unwind=8 block=128 mem=3 timeout=900
+// @harness c18_vec_z7_rank_2x2 tier=thorough unwind=8 block=128 mem=14 timeout=942
+// @harness c18_vec_z7_rank_2x2_reach tier=thorough unwind=8 block=128 mem=14 timeout=1869 twin
+// @harness c18_vec_z7_null_1x2 tier=thorough unwind=8 block=128 mem=12 timeout=1897
+// @harness c18_vec_z7_null_2x2 tier=thorough unwind=8 block=128 mem=40 timeout=3600
+// @harness c18_vec_z7_solve_1x2 tier=thorough unwind=8 block=128 mem=40 timeout=3600
+// @harness c18_vec_z7_solve_2x1 tier=thorough unwind=8 block=128 mem=35 timeout=3600
+// @harness c18_vec_z7_solve_2x2 tier=thorough unwind=8 block=128 mem=40 timeout=3600
+// @harness c18_vec_z7_solve_2x2_reach tier=thorough unwind=8 block=128 mem=40 timeout=3600 twin
+// @harness c18_vec_z7_detinv_2 tier=thorough unwind=8 block=128 mem=40 timeout=3600
+// @harness c18_vec_i64_rank_2x1_e3_reach tier=quick unwind=6 block=128 mem=4 timeout=900 twin
+// @harness c18_vec_i64_null_1x2_e3_reach tier=quick unwind=6 block=128 mem=10 timeout=1200 twin
+// @harness c18_vec_i64_solve_2x1_e3_reach tier=quick unwind=6 block=128 mem=12 timeout=1200 twin
+// @harness c18_vec_i64_detinv_1_e3_reach tier=quick unwind=6 block=128 mem=10 timeout=1200 twin
+// @harness c18_vec_z7_rank_2x1_reach tier=quick unwind=8 block=128 mem=4 timeout=900 twin
 proofs! {
+    c18_vec_i64_rank_2x1_e3_reach => rank_body::<i64, 2, 1>(3, true);
+    c18_vec_i64_null_1x2_e3_reach => nullspace_body::<i64, 1, 2>(3, true);
+    c18_vec_i64_solve_2x1_e3_reach => solve_body::<i64, 2, 1, 2>(3, true);
+    c18_vec_i64_detinv_1_e3_reach => det_inverse_body::<i64, 1>(3, true);
+    c18_vec_z7_rank_2x1_reach => rank_body::<Z7, 2, 1>(0, true);
     c18_vec_i64_rank_1x1_e3 => rank_body::<i64, 1, 1>(3, false);
     c18_vec_i64_rank_1x2_e3 => rank_body::<i64, 1, 2>(3, false);
     c18_vec_i64_rank_2x1_e3 => rank_body::<i64, 2, 1>(3, false);
